@@ -1,6 +1,7 @@
 package props
 
 import (
+	"bytes"
 	"fmt"
 	"os"
 	"path/filepath"
@@ -178,6 +179,9 @@ func checkPrefix(img *sysImage, off int, via string) (sig, msg string) {
 				return "cli-start:serves-truncated-file:" + img.section(off), fmt.Sprintf("'start' on a %s file cut at %d (%s) kept running instead of failing", img.format, off, img.section(off))
 			}
 			return "cli-" + cmd + ":hang:" + img.section(off), fmt.Sprintf("'%s' on a file cut at %d did not exit", cmd, off)
+		}
+		if bytes.Contains(r.Stderr, []byte("panic:")) || bytes.Contains(r.Stderr, []byte("goroutine 1 [running]")) {
+			return "cli-" + cmd + ":panic:" + img.section(off), fmt.Sprintf("'%s' on a %s file cut at %d (%s) panicked: %s", cmd, img.format, off, img.section(off), tail(r.Stderr, 300))
 		}
 		if r.ExitCode == 0 {
 			return "cli-" + cmd + ":exit0:" + img.section(off), fmt.Sprintf("'%s' on a %s file cut at %d (%s) exited with status 0", cmd, img.format, off, img.section(off))
